@@ -540,7 +540,8 @@ def _r11_345(ctx, P):
                     for a in ("X", "Y"):
                         for what, got, want in (("boundary", pd[2], b_opt), ("fill_value", pd[3], f_opt)):
                             g, w = _real(got, a, NOTHING), _real(want, a, NOTHING)
-                            if g is None:
+                            # "nothing for this axis" may also arrive spelled out: None, or the axis' own default (options completed before pad())
+                            if g is None or (w is NOTHING and g == Sym(("boundary_default_" if what == "boundary" else "fill_default_") + a)):
                                 g = NOTHING
                             if g is not w and g != w:
                                 bad = bad or (f"the caller's {what}={want!r} (keyed by real axis names; the ufunc's dummy X is bound to the real axis Y) reaches pad() as "
